@@ -66,9 +66,10 @@ func ExecPlan(p *Plan) (*RunResult, *Engine) {
 // Generate runs one seeded run: commands are drawn adaptively from the model
 // state and recorded as a plan.
 func Generate(prof *Profile, seed uint64) (*Plan, *RunResult, *Gen) {
-	if Tier == "thorough" && prof.BigTables && splitmix64(seed^0xb16)%20 == 0 {
-		// thorough tier, 5 % of the runs: one table loaded with more than 64
-		// items before the usual mix (size thresholds inside the library)
+	if prof.BigTables && (Tier == "thorough" && splitmix64(seed^0xb16)%20 == 0 || Tier != "thorough" && splitmix64(seed^0xb16)%200 == 0) {
+		// 5 % of the runs of the thorough tier, 0.5 % of the quick tier: one table
+		// loaded with more than 64 items before the usual mix, half of the time
+		// emptied again to a handful (size thresholds inside the library)
 		big := *prof
 		big.Big = true
 		if big.MinIdx < 1 {
